@@ -166,6 +166,9 @@ func RunAll(pkgs []*Pkg, variants []Variant, each func(fr fileResult)) {
 			for p := range jobs {
 				r.SetPkg(p)
 				for _, f := range p.Files {
+					if p.Focus != "" && f.Name != p.Focus {
+						continue
+					}
 					fr := fileResult{pkg: p, file: f, outcomes: make([]Outcome, len(variants))}
 					for i := range variants {
 						fr.outcomes[i] = r.CheckFile(i, f)
@@ -221,7 +224,11 @@ func compute(tier string, seed int64, dir string) *Shared {
 	all := append(append(append([]*Pkg{}, s1...), s2...), s3...)
 	for _, p := range all {
 		s.Packages[p.Stream]++
-		s.Files += len(p.Files)
+		if p.Focus != "" {
+			s.Files++
+		} else {
+			s.Files += len(p.Files)
+		}
 	}
 
 	var hits []c01Hit
@@ -271,7 +278,7 @@ func compute(tier string, seed int64, dir string) *Shared {
 					s.C20Checked++
 					if f20 := CheckC20(fr.pkg, fr.file, name, d); f20 != nil {
 						s.fail("C20", "C20/"+name+"/"+f20.Subject+"-namesake",
-							fmt.Sprintf("%s reports %q at %s although the callee spelled %s resolves to %s", name, clip(d.Text, 120), posStr(d.Pos), f20.Subject, f20.Resolves),
+							fmt.Sprintf("%s reports %q at %s although the callee spelled %s resolves to %s", name, clip(d.Text, 120), posStr(d.Pos), f20.Spelled, f20.Resolves),
 							map[string]interface{}{"package": fr.pkg.Name, "file": fr.file.Name, "checker": v.String(), "position": posStr(d.Pos),
 								"text": d.Text, "line": sourceLine(fr.file, d), "resolves_to": f20.Resolves, "origin": fr.pkg.Origin})
 					}
@@ -326,6 +333,7 @@ func compute(tier string, seed int64, dir string) *Shared {
 
 	sort.Slice(obs, func(i, j int) bool { return obs[i].Pkg+"/"+obs[i].File < obs[j].Pkg+"/"+obs[j].File })
 	writeTie(s, dir, all, obs, starts)
+	CleanScratch()
 	s.WallS = time.Since(t0).Seconds()
 	return s
 }
